@@ -288,17 +288,31 @@ class Materialised:
             self.classes[key] = self.modules[spec["mod"]].__dict__[n]
 
     def _declare_class(self, spec):
-        fl, name, mod = spec["flavour"], spec["name"], spec["mod"]
+        """`spec["inherit"] = n`: the first n fields live in a synthesised base class `<name>_Base` of the same flavour
+        (for TypedDicts `spec["base_flavour"]` may give the base the other totality); everything else in the harness
+        keeps looking at `spec["fields"]`, the fields of the class as its users see them."""
+        n_inh = int(spec.get("inherit") or 0)
+        if n_inh and spec["flavour"] != "namedtuple":
+            bfl = spec.get("base_flavour") or spec["flavour"]
+            self._declare_one(spec, spec["name"] + "_Base", bfl, spec["fields"][:n_inh], (), None)
+            self._declare_one(spec, spec["name"], spec["flavour"], spec["fields"][n_inh:], spec["fields"][:n_inh],
+                              spec["name"] + "_Base")
+        else:
+            self._declare_one(spec, spec["name"], spec["flavour"], spec["fields"], (), None)
+        self.classes[(spec["mod"], spec["name"])] = self.modules[spec["mod"]].__dict__[spec["name"]]
+
+    def _declare_one(self, spec, name, fl, fields, inherited, base):
+        mod = spec["mod"]
         future = bool(spec.get("future"))
         self._future[mod] = self._future.get(mod, False) or future
         lines = []
-        fields = spec["fields"]
 
         def ann(f):
             e = self.expr(f["t"], at_mod=mod, quote_refs=not future)
             if f.get("final") and fl not in ("typeddict", "typeddict_partial", "namedtuple"):
                 e = f"typing.Final[{e}]"
-            if f.get("notreq") and fl in ("typeddict", "typeddict_partial"):
+            # the markers say what the field is for users of the (child) class; the declaring class may already imply it
+            if f.get("notreq") and fl == "typeddict":
                 e = f"typing.NotRequired[{e}]"
             if f.get("req") and fl == "typeddict_partial":
                 e = f"typing.Required[{e}]"
@@ -309,16 +323,17 @@ class Materialised:
         def dflt(f):
             return default_src(f["t"], lambda e: self.expr(e, at_mod=mod))
 
+        classvars = spec.get("classvars", ()) if name == spec["name"] else ()
         if fl in ("dataclass", "dc_slots", "dc_kwonly", "dc_frozen"):
             opts = {"dataclass": "", "dc_slots": "slots=True", "dc_kwonly": "kw_only=True", "dc_frozen": "frozen=True"}[fl]
             lines.append(f"@dataclasses.dataclass({opts})")
-            lines.append(f"class {name}:")
+            lines.append(f"class {name}({base}):" if base else f"class {name}:")
             for f in fields:
                 d = f" = {dflt(f)}" if f.get("default") else ""
                 lines.append(f"    {f['n']}: {ann(f)}{d}")
-            for cv in spec.get("classvars", ()):
+            for cv in classvars:
                 lines.append(f"    {cv}: typing.ClassVar[int] = 7")
-            if not fields and not spec.get("classvars"):
+            if not fields and not classvars:
                 lines.append("    pass")
         elif fl == "namedtuple":
             lines.append(f"class {name}(typing.NamedTuple):")
@@ -328,17 +343,18 @@ class Materialised:
                 lines.append("    pass")
         elif fl in ("typeddict", "typeddict_partial"):
             total = "" if fl == "typeddict" else ", total=False"
-            lines.append(f"class {name}(typing.TypedDict{total}):")
+            lines.append(f"class {name}({base or 'typing.TypedDict'}{total}):")
             for f in fields:
                 lines.append(f"    {f['n']}: {ann(f)}")
             if not fields:
                 lines.append("    pass")
         elif fl in ("plain", "slots"):
-            lines.append(f"class {name}:")
+            lines.append(f"class {name}({base}):" if base else f"class {name}:")
             if fl == "slots":
                 lines.append(f"    __slots__ = {tuple(f['n'] for f in fields)!r}")
             for f in fields:
                 lines.append(f"    {f['n']}: {ann(f)}")
+            fields = [*inherited, *fields]   # the constructor, __eq__ and __repr__ of a subclass cover every field
             params = ", ".join(f"{f['n']}" + (f"={dflt(f)}" if f.get("default") else "") for f in fields)
             # required parameters must precede defaulted ones: make everything keyword-only
             lines.append(f"    def __init__(self{', *, ' + params if params else ''}):")
@@ -355,7 +371,6 @@ class Materialised:
         else:
             raise ValueError(fl)
         self._exec(mod, "\n".join(lines) + "\n", future=future)
-        self.classes[(mod, name)] = self.modules[mod].__dict__[name]
 
     # -- annotation expression --------------------------------------------------------------
     def expr(self, spec, at_mod, quote_refs=True) -> str:
@@ -376,7 +391,8 @@ class Materialised:
             n = named(spec)
             return repr(n) if quote_refs else n
         if k == "literal":
-            return "typing.Literal[" + ", ".join(repr(v) for v in spec["values"]) + "]"
+            # "bare": the name as `from typing import *` binds it (a string-valued alias then reads "Literal[...]")
+            return ("Literal[" if spec.get("sp") == "bare" else "typing.Literal[") + ", ".join(repr(v) for v in spec["values"]) + "]"
         if k in ("list", "set", "frozenset", "deque"):
             return f"{spec.get('sp') or SPELLINGS[k][0]}[{E(spec['a'][0])}]"
         if k == "vtuple":
@@ -505,7 +521,7 @@ def to_src(v, mat: Materialised | None = None) -> str:
         if dataclasses.is_dataclass(v):
             names = [f.name for f in dataclasses.fields(v) if f.init]
         else:
-            names = list(getattr(t, "__annotations__", {}))
+            names = [n for c in reversed(t.__mro__) for n in c.__dict__.get("__annotations__", {})]
         return f"{a}.{t.__qualname__}(" + ", ".join(f"{n}={R(getattr(v, n))}" for n in names if hasattr(v, n)) + ")"
     if isinstance(v, (int, float, str)):
         base = next(b for b in (bool, int, float, str) if isinstance(v, b))
@@ -1016,7 +1032,10 @@ def literal_specs(draw):
     for v in vals:
         if not any(type(v) is type(u) and v == u for u in uniq):
             uniq.append(v)
-    return {"k": "literal", "values": uniq}
+    out = {"k": "literal", "values": uniq}
+    if draw(st.integers(0, 2)) == 0:
+        out["sp"] = "bare"
+    return out
 
 
 def scalar_specs(pool=None):
@@ -1207,6 +1226,18 @@ def class_specs(draw, names, *, max_depth, hashable, open_classes, kw):
     spec = {"k": "class", "name": name, "mod": mod, "flavour": fl, "future": future, "fields": fields}
     if fl == "dataclass" and draw(st.integers(0, 5)) == 0:
         spec["classvars"] = ["cv"]
+    if fl != "namedtuple" and fields and draw(st.integers(0, 3)) == 0:
+        # a class hierarchy: the first n fields are declared by a base class of the same flavour (a slotted class then only
+        # names its own fields in __slots__, a TypedDict may sit on a base of the other totality)
+        n = draw(st.integers(1, len(fields)))
+        spec["inherit"] = n
+        if fl.startswith("typeddict") and draw(st.booleans()):
+            other = "typeddict_partial" if fl == "typeddict" else "typeddict"
+            spec["base_flavour"] = other
+            for f in fields[:n]:
+                f.pop("notreq", None)
+                f.pop("req", None)
+                f["notreq" if other == "typeddict_partial" else "req"] = True
     if not has_kind(spec, "ref") or True:
         names.closed.append((mod, name))
         names.flavour[(mod, name)] = fl
@@ -1383,7 +1414,7 @@ def value_depth(v) -> int:
         elif hasattr(x, "__dict__") and not isinstance(x, type):
             kids, inc = list(vars(x).values()), 1
         elif hasattr(type(x), "__slots__") and not isinstance(x, (int, str, float, bytes, type(None))):
-            kids, inc = [getattr(x, sl) for sl in type(x).__slots__ if hasattr(x, sl)], 1
+            kids, inc = [getattr(x, sl) for c in type(x).__mro__ for sl in c.__dict__.get("__slots__", ()) if hasattr(x, sl)], 1
         else:
             continue
         best = max(best, d + inc)
